@@ -6,5 +6,10 @@ MCNames2   == [be |-> {"numpy", "jax"}, ta |-> {"core", "einsum"}]
 MCDefault  == [be |-> "numpy", ta |-> "core"]
 MCBad      == [be |-> {"nope", "pytorch", "einsum", "core"}, ta |-> {"nope", "numpy", "jax"}]
 MCBad1     == [be |-> {"nope"}, ta |-> {"nope"}]
+\* a backend may also be selected by INSTANCE (documented: `backend : tensorly.Backend or str`): "<name>_alt" stands for a second,
+\* unregistered instance of the same backend class -- it reports the same name and runs the same functions, but it is another object
+MCNames3alt == [be |-> {"numpy", "jax", "cupy", "numpy_alt", "jax_alt"}, ta |-> {"core", "einsum", "einsum_alt"}]
+AltBase == [numpy_alt |-> "numpy", jax_alt |-> "jax", einsum_alt |-> "einsum"]
+NameOf(b) == IF b \in DOMAIN AltBase THEN AltBase[b] ELSE b
 GraphView == <<S, pc>>
 =============================================================================
